@@ -21,6 +21,17 @@ def spec(name, layout, dst1, dst2, queue=True, skip=False, options=(),
     return s
 
 
+def conflict_spec(mode, depth, **kw):
+    from ..sysmc.world import AUTHOR
+    return spec('%s-D3-conflict' % mode, 'D3', None, None, depth=depth,
+                options=['bypass_build_status'], statuses_int=[],
+                statuses_q=['SUCCESSFUL'], resolve=True,
+                init=[['open', PR1, 'development/4.3', AUTHOR,
+                       'file_development_5.1', 'mine\n'],
+                      ['open', PR2, 'development/4.3', AUTHOR,
+                       'file_development_5.1', 'theirs\n']], **kw)
+
+
 def create_spec(queue, depth):
     """Branch creation (with explicit branching points) in states where
     destination branches have moved."""
@@ -63,8 +74,15 @@ def specs(tier):
             spec('q-D2-manual', 'D2', 'development/4.3', None,
                  depth=5, statuses_q=['SUCCESSFUL'], manual=['revert'],
                  init=[['open', PR1, 'development/4.3'], ['eval_pr', 1]]),
+            # conflicts: pull request 1 collides with a file of
+            # development/5.1, pull request 2 with pull request 1; the
+            # developer resolves by creating the integration branch by hand
+            conflict_spec('noq', 7, queue=False),
+            conflict_spec('q', 6),
         ]
-    out = [create_spec(False, 4), create_spec(True, 5)]
+    out = [create_spec(False, 4), create_spec(True, 5),
+           conflict_spec('noq', 10, queue=False), conflict_spec('q', 9),
+           conflict_spec('skipq', 9, skip=True)]
     for mode, kw in [('q', dict()), ('skipq', dict(skip=True)),
                      ('noq', dict(queue=False))]:
         for octo in ((), ('no_octopus',)):
